@@ -8,6 +8,7 @@ fn(c) returns the expected value or raises Skip; c is hv.monitors.c02.Ctx:
 A transcribed rule is weaker evidence than a parsed one and is labelled so."""
 
 from hv import statutory as _st
+from hv.monitors.c02 import Skip
 
 ALL = (2021, 2022, 2023)
 Y22 = (2022, 2023)
@@ -186,6 +187,46 @@ RULES += [
     ('nc_d-400', '20b', ALL, lambda c: _nc_withheld(c, ('spouse',)), NC + " line 20b: spouse's NC tax withheld"),
     ('1040_s8812', 'clwkst_a_2', Y22, lambda c: (sum(c.opt('1040_s3.' + l, 0.0) for l in ('1', '2', '3', '4', '6d', '6e', '6f', '6l')) if c.x('1040.need_schedule_3_part_i') else 0.0),
      'Schedule 8812 instructions, Credit Limit Worksheet A line 2: Schedule 3 lines 1, 2, 3, 4, 6d, 6e, 6f, 6l'),
+]
+
+
+# ---------------- added after round 4: per-payer listing lines, pensions, carries between worksheets
+def _pension(c, box):
+    c.cross = True
+    tot = 0.0
+    for sec in c.ev.instances('1099-r'):
+        if c.sol.get(f'{sec}.box_7_ira_sep_simple') is False:
+            if f'{sec}.{box}' not in c.sol:
+                raise Skip(f'{sec}.{box}')
+            tot += c.sol[f'{sec}.{box}']
+    return tot
+
+
+def _count(c, suffix):
+    c.cross = True
+    n = 0
+    seen = False
+    for k in range(4):
+        key = f'1040.dependent_{k}_{suffix}'
+        if key in c.sol:
+            seen = True
+            n += 1 if c.sol[key] is True else 0
+    if not seen:
+        raise Skip('1040.dependent_*')
+    return n
+
+
+SBL = 'Schedule B lines 1 and 5: list each payer and the amount shown on that payer\'s Form 1099-INT (boxes 1 and 3) / 1099-DIV (box 1a)'
+for _k in range(14):
+    RULES.append(('1040_sb', f'1_amount_{_k}', ALL, (lambda c, k=_k: c.x(f'1099-int:{k}.box_1') + c.x(f'1099-int:{k}.box_3')), SBL))
+    RULES.append(('1040_sb', f'5_amount_{_k}', ALL, (lambda c, k=_k: c.x(f'1099-div:{k}.box_1a')), SBL))
+RULES += [
+    ('1040', '5b', Y22, lambda c: _pension(c, 'box_2a'), I1040 + ' 5b: taxable amount of pensions and annuities (Form 1099-R box 2a of the statements that are not IRA distributions)'),
+    ('1040', '19', Y22, lambda c: c.x('1040_s8812.14'), I1040 + ' 19: child tax credit or credit for other dependents from Schedule 8812 (line 14)'),
+    ('1040_s8812', '6', Y22, lambda c: _count(c, 'odc'), 'Schedule 8812 line 6: number of other dependents (the box in column (4) of the Dependents section)'),
+    ('nc_d-400', '10a', ALL, lambda c: c.x('nc_d-400_child_deduction_wkst.3'), NC + ' line 10a: number of qualifying children from the child deduction worksheet'),
+    ('nc_d-400', '18', ALL, lambda c: c.x('nc_d-400_consumer_use_tax_wkst.consumer_use_tax'), NC + ' line 18: consumer use tax from the worksheet'),
+    ('nc_d-400_child_deduction_wkst', '3', ALL, lambda c: _count(c, 'ctc'), NC + ' child deduction worksheet line 3: number of children for whom the federal child tax credit is allowed'),
 ]
 
 
